@@ -21,7 +21,7 @@ from .common import (
     pick,
     run,
 )
-from asphalt.core import Context, context_teardown, start_service_task  # noqa: E402
+from asphalt.core import Context, add_resource, add_teardown_callback, context_teardown, start_service_task  # noqa: E402
 
 import symsched
 
@@ -34,7 +34,7 @@ class _RB:
 
 
 KIND = ["sync", "async def+checkpoint", "sync returning an awaitable object (__await__)"]
-RAISES = ["ok", "Exception", "BaseException"]
+RAISES = ["ok", "Exception", "BaseException", "re-raises the very exception object it was passed (else a fresh Exception)"]
 ENDS = ["return", "Exception", "BaseException", "ExceptionGroup"]
 
 
@@ -73,7 +73,7 @@ def h1_params(tier):
     ps = [P("n", 0, n), P("end", 0, 2 if tier == "quick" else 3), P("nested", 0, 1), P("outer", 0, 1)]
     kinds = 1 if tier == "quick" else 2
     for i in range(n):
-        ps += [P(f"r{i}", 0, 2), P(f"k{i}", 0, kinds), P(f"p{i}", 0, 1)]
+        ps += [P(f"r{i}", 0, 3 if (i == 0 or tier != "quick") else 2), P(f"k{i}", 0, kinds), P(f"p{i}", 0, 1)]
     return ps
 
 
@@ -88,7 +88,7 @@ def h1(a, tier):
     kinds = []
     passexc = []
     for i in range(n):
-        raises.append(pick(a[f"r{i}"], 3))
+        raises.append(pick(a[f"r{i}"], 4 if (i == 0 or not quick) else 3))
         kinds.append(pick(a[f"k{i}"], 2 if quick else 3))
         passexc.append(pick(a[f"p{i}"], 2))
     log = []
@@ -104,6 +104,10 @@ def h1(a, tier):
                 raise excs[i]
             if raises[i] == 2:
                 excs[i] = CbBase(i)
+                raise excs[i]
+            if raises[i] == 3:
+                got = received.get(i) or ()
+                excs[i] = got[0] if (got and got[0] is not None) else CbErr(i)
                 raise excs[i]
 
         # quick tier has two kinds; "async" alternates between a coroutine function and a
@@ -214,7 +218,7 @@ H1 = Harness(
     title="order / faults / pass_exception / outcome for n<=3 directly registered callbacks",
     bound_text=lambda tier: (
         "n<=3 callbacks x kind{sync,async" + (" (coroutine function at odd / awaitable object at even positions)" if tier == "quick" else " def,sync returning an awaitable object")
-        + "} x raises{no,Exception,BaseException} x pass_exception x block end{return,Exception,BaseException"
+        + "} x raises{no,Exception,BaseException,the exception object it was passed} x pass_exception x block end{return,Exception,BaseException"
         + ("" if tier == "quick" else ",ExceptionGroup") + "} x {root,nested} x {plain, inside an outer except handler}"
     ),
     oracle="log == reverse registration order with begin/end adjacent; pass_exception value; ctx.closed; "
@@ -234,7 +238,7 @@ ROUTES = ["add_teardown_callback(pass_exception=True)", "add_resource(teardown_c
 
 def h2_params(tier):
     n = 3 if tier == "quick" else 4
-    ps = [P("n", 0, n), P("end", 0, 1), P("nested", 0, 1)]
+    ps = [P("n", 0, n), P("end", 0, 1), P("nested", 0, 2)]
     for i in range(n):
         ps += [P(f"route{i}", 0, 5), P(f"r{i}", 0, 1)]
     return ps
@@ -245,7 +249,11 @@ def h2(a, tier):
     nmax = 3 if tier == "quick" else 4
     n = pick(a["n"], nmax + 1)
     end = pick(a["end"], 2)
-    nested = pick(a["nested"], 2)
+    nested = pick(a["nested"], 3)
+    # nested 2: as 1, and before anything is registered a helper context whose parent is the OUTER context is entered and left inside the block;
+    # items are then registered through the module-level shortcuts (which act on the current context)
+    helper = nested == 2
+    nested = 1 if nested else 0
     routes, raises = [], []
     for i in range(n):
         routes.append(pick(a[f"route{i}"], 6))
@@ -277,7 +285,7 @@ def h2(a, tier):
                 received[i] = exc
                 finish(i)
 
-            ctx.add_teardown_callback(cb, pass_exception=True)
+            (add_teardown_callback if helper else ctx.add_teardown_callback)(cb, pass_exception=True)
         elif r == 1:
 
             async def cb():
@@ -286,7 +294,7 @@ def h2(a, tier):
                 finish(i)
 
             # registered under TWO types: its teardown callback must still run exactly once
-            ctx.add_resource(object(), f"res{i}", [_RA, _RB], teardown_callback=cb)
+            (add_resource if helper else ctx.add_resource)(object(), f"res{i}", [_RA, _RB], teardown_callback=cb)
         elif r == 2:
             await shared_gen(i)  # ONE decorated function for all items (like one component class instantiated several times)
         elif r in (4, 5):
@@ -333,22 +341,31 @@ def h2(a, tier):
             await start_service_task(service, f"svc{i}")
 
     async def block():
-        async with Context() as ctx:
-            holder["ctx"] = ctx
-            for i in range(n):
-                await register(ctx, i)
-            await anyio.sleep(0)
-            if body_exc is not None:
-                raise body_exc
+        try:
+            async with Context() as ctx:
+                holder["ctx"] = ctx
+                if helper:
+                    async with Context(holder["outer"]):
+                        pass
+                for i in range(n):
+                    await register(ctx, i)
+                await anyio.sleep(0)
+                if body_exc is not None:
+                    raise body_exc
+        finally:
+            log_left.append(len(log))
 
     async def main():
         if nested:
-            async with Context():
+            async with Context() as outer:
+                holder["outer"] = outer
                 return await block()
         return await block()
 
+    log_left = []
     _, outcome, k = run(main)
     summary = {
+        "helper_context_with_another_parent_entered_and_left_first": bool(helper),
         "items": [{"route": ROUTES[routes[i]], "raises": bool(raises[i])} for i in range(n)],
         "block_ends_with": "Exception" if end else "return",
         "context": "nested" if nested else "root",
@@ -361,6 +378,8 @@ def h2(a, tier):
         exp_log += [("begin", i), ("end", i)]
     if log != exp_log:
         return FAIL(f"routes-order:{'/'.join(str(r) for r in routes)}", f"log={log} expected={exp_log}", summary)
+    if not log_left or log_left[0] != len(log):
+        return FAIL(f"routes-callbacks-ran-after-the-block-was-left:helper={helper}", f"{len(log) - (log_left[0] if log_left else 0)} log entries appeared after the block had been left", summary)
     for i, got in received.items():
         if got is not body_exc:
             return FAIL(f"routes-pass_exception:route={routes[i]}:end={end}", f"item {i} received {got!r}", summary)
